@@ -114,7 +114,21 @@ func pooledBufferLifetime(c *Ctx, rule string) {
 			n++
 			key := funcKey(p, fd) + "|pooled-bytes-not-used-after-release"
 			bad := ""
+			// released at most once: a deferred release runs on every exit, so any direct release of the same buffer
+			// puts it into the pool twice — two later renders then get the same buffer
 			for _, rc := range relCalls {
+				if deferred[rc] {
+					for _, rc2 := range relCalls {
+						if !deferred[rc2] && released(rc2) == released(rc) {
+							bad = fmt.Sprintf("%s releases the pooled buffer directly at %s and again through the deferred release at %s: the same buffer is put into the pool twice, so two later (concurrent) renders are handed one buffer and write over each other", fd.Name.Name, c.pos(rc2.Pos()), c.pos(rc.Pos()))
+						}
+					}
+				}
+			}
+			for _, rc := range relCalls {
+				if bad != "" {
+					break
+				}
 				b := released(rc)
 				if deferred[rc] {
 					// no return of the buffer's memory
